@@ -1,6 +1,7 @@
 // Harness for C15 (task queue): area `forced` (forced schedules, compared with the Lean model through drv_c15) and
 // area `stress` (random stress in child processes, judged on the event log), area `recovery` (errs.Recovery called
-// directly) and area `probe` (situations outside the domain, transcribed and not judged).
+// directly) and area `probe` (situations outside the domain, transcribed and not judged),
+// area `cfg` (what New makes of its options, compared with Model/TaskQueueNew.lean).
 package main
 
 import (
@@ -18,10 +19,14 @@ func main() {
 		stressChild(os.Args[2:])
 		return
 	}
+	if len(os.Args) >= 2 && os.Args[1] == "child-first" {
+		firstUseChild(os.Args[2:])
+		return
+	}
 	if len(os.Args) >= 3 && os.Args[1] == "child-probe" {
 		probeChild(os.Args[2])
 		return
 	}
 	hx.Main(map[string]hx.Area{"forced": &forcedArea{}, "stress": stressArea{}, "recovery": recoveryArea{},
-		"probe": probeArea{}})
+		"probe": probeArea{}, "cfg": cfgArea{}})
 }
